@@ -627,10 +627,12 @@ fn c16_cmp_w7() {
     check_cmp(&any_name::<7>(), &any_name::<7>());
 }
 
-fn check_cmp_antisym(a: &Stack, b: &Stack) {
+fn check_cmp_antisym(a: &Stack, b: &Stack, with_partial_cmp: bool) {
     let c = a.name().cmp(b.name());
     assert!(b.name().cmp(a.name()) == c.reverse(), "[C16] cmp is antisymmetric");
-    assert!(a.name().partial_cmp(b.name()) == Some(c), "[C16] partial_cmp agrees with cmp");
+    if with_partial_cmp {
+        assert!(a.name().partial_cmp(b.name()) == Some(c), "[C16] partial_cmp agrees with cmp");
+    }
     kani::cover!(c == Ordering::Less && a.n == 3, "Less");
     kani::cover!(c == Ordering::Equal && a.n == 3, "Equal");
 }
@@ -641,16 +643,16 @@ fn check_cmp_antisym(a: &Stack, b: &Stack) {
 #[kani::proof]
 #[kani::unwind(7)]
 fn c16_cmp_antisymmetric_w5() {
-    check_cmp_antisym(&any_name::<5>(), &any_name::<5>());
+    check_cmp_antisym(&any_name::<5>(), &any_name::<5>(), true);
 }
 
-// @harness props=C16 tier=thorough mem=7 t=3400 fn="<Name as Ord>::cmp,<Name as PartialOrd>::partial_cmp,<Label as Ord>::cmp"
-//   bound="every ordered pair of valid names of wire length <= 7 (all shapes, every octet value), stack view; unwind 9"
+// @harness props=C16 tier=thorough mem=7 t=3400 fn="<Name as Ord>::cmp,<Label as Ord>::cmp"
+//   bound="every ordered pair of valid names of wire length <= 7 (all shapes, every octet value), stack view; antisymmetry only (partial_cmp is in the w5 harness); unwind 9"
 //   sym="a,b: buf:[u8;7], len<=7"
 #[kani::proof]
 #[kani::unwind(9)]
 fn c16_cmp_antisymmetric_w7() {
-    check_cmp_antisym(&any_name::<7>(), &any_name::<7>());
+    check_cmp_antisym(&any_name::<7>(), &any_name::<7>(), false);
 }
 
 fn check_hash(a: &Stack, b: &Stack) {
@@ -731,6 +733,38 @@ fn c16_eq_or_subdomain_of_2x2() {
 #[kani::unwind(9)]
 fn c16_eq_or_subdomain_of_w7() {
     check_sub(&any_name::<7>(), &any_name::<7>());
+}
+
+/// Lemma about the ORACLE only (no quandary code): ref_name_cmp is a total
+/// order on names that identifies exactly the names equal up to ASCII case.
+/// With c16_cmp_w7 (cmp == ref_name_cmp on every ordered pair) this carries
+/// antisymmetry, transitivity and consistency with == over to `Name::cmp` for
+/// all names of wire length <= 7, where the direct three-cmp harness does
+/// not fit into memory.
+fn check_ref_order(a: &Stack, b: &Stack, c: &Stack) {
+    let ab = ref_name_cmp(a.wire(), b.wire());
+    let ba = ref_name_cmp(b.wire(), a.wire());
+    let bc = ref_name_cmp(b.wire(), c.wire());
+    let ac = ref_name_cmp(a.wire(), c.wire());
+    assert!(ba == ab.reverse(), "[C16] the reference order is antisymmetric");
+    assert!((ab == Ordering::Equal) == same_nocase(a.wire(), b.wire()), "[C16] the reference order is Equal exactly for names equal up to case");
+    if le(ab) && le(bc) {
+        assert!(le(ac), "[C16] the reference order is transitive");
+        if ab == Ordering::Less || bc == Ordering::Less {
+            assert!(ac == Ordering::Less, "[C16] the reference order is transitive (strict)");
+        }
+        kani::cover!(ab == Ordering::Less && bc == Ordering::Less && a.n == 4 && b.n == 2 && c.n == 3, "strictly increasing triple of mixed depth");
+    }
+    kani::cover!(ab == Ordering::Equal && !same(a.wire(), b.wire()) && a.wl == 7, "Equal for different spellings");
+}
+
+// @harness props=C16 tier=thorough mem=6 t=3000 fn="(oracle only) ref_name_cmp,ref_label_cmp,same_nocase"
+//   bound="every triple of valid names of wire length <= 7 (all shapes, every octet value); reference code only; unwind 9"
+//   sym="a,b,c: buf:[u8;7], len<=7"
+#[kani::proof]
+#[kani::unwind(9)]
+fn c16_ref_order_is_total_w7() {
+    check_ref_order(&any_name::<7>(), &any_name::<7>(), &any_name::<7>());
 }
 
 fn le(o: Ordering) -> bool {
